@@ -375,10 +375,10 @@ Print Assumptions model_passes_C08_clause_4.
 
 (** [model_passes_check], PARTIAL, for [check_case_C08] itself (see [model_passes_clauses_C07],
     Props/C07.v, for the reading and the hypotheses): on the case the driver would print for the
-    MODEL, [check_case_C08] answers (-1, p, k) — no divergence — with k never 1, 2, 3, 5, 6, 8 or 9.
-    NOT covered: clause 4 (the checker's schedule tracker) and clause 7 as a whole (its two
-    history-wide lists are [model_passes_C08_clause_7_history]; the step-wise comparison with
-    [expected_cb] is not done).  So "k = 0" is not a theorem: k is 0, 4 or 7. *)
+    MODEL, [check_case_C08] answers (-1, p, k) — no divergence — with k never 1, 2, 3, 4, 5, 6, 8
+    or 9.  NOT covered: clause 7 as a whole (its two history-wide lists are
+    [model_passes_C08_clause_7_history]; the step-wise comparison with [expected_cb] is not done).
+    So "k = 0" is not a theorem: k is 0 or 7. *)
 Theorem model_passes_clauses_C08 :
   forall c steps h0 t0 l0 univ,
     c_msvc c < 0 -> 0 <= c_tax c -> clean l0 -> NoDup (create_txhs steps) -> Forall good_step steps ->
@@ -387,8 +387,8 @@ Theorem model_passes_clauses_C08 :
        In (TAX, q_fd q) univ /\ In (REQ, q_fd q) univ) ->
     ledger_of (obs_of univ 0 None [] (init h0 t0 l0)) = l0 ->
     forall corr p k, check_case_C08 (model_case univ c h0 t0 l0 steps) = (corr, p, k) ->
-      corr = -1 /\ k <> 1 /\ k <> 2 /\ k <> 3 /\ k <> 5 /\ k <> 6 /\ k <> 8 /\ k <> 9.
-Proof. exact model_passes_clauses_C08_3_lemma. Qed.
+      corr = -1 /\ k <> 1 /\ k <> 2 /\ k <> 3 /\ k <> 4 /\ k <> 5 /\ k <> 6 /\ k <> 8 /\ k <> 9.
+Proof. exact model_passes_clauses_C08_4_lemma. Qed.
 Print Assumptions model_passes_clauses_C08.
 
 (** The same for ANY configuration — module-served services included, any end-block step — with the
